@@ -87,7 +87,6 @@ def r2(ctx, prog):
                            "poffset = (p + offset) mod alignment, adjust = (poffset == 0 ? 0 : alignment − poffset), aligned_p = p + adjust")
     f = prog.fn("mi_heap_malloc_zero_aligned_at_overalloc")
     sz, al, of = f.param_id(1), f.param_id(2), f.param_id(3)
-    ov = [d for d in f.decl_of("oversize")] or [rl.var_of(f, rl.arg(f, c, 1)) for c in f.calls("mi_heap_malloc_zero_no_guarded")]
     calls = list(f.calls("mi_heap_malloc_zero_no_guarded"))
     if not calls:
         raise AnalysisBroken("C03.R2: over-allocating call not found")
@@ -149,11 +148,13 @@ def r2(ctx, prog):
         ok = ok and f.nodes[e]["k"] == "BinaryOperator" and f.nodes[e]["op"] == "-" and rl.var_of(f, f.nodes[e]["c"][0]) == al and rl.var_of(f, f.nodes[e]["c"][1]) == po[0]["d"]
     ctx.check(R, ok, f.where(), "adjust = (poffset == 0 ? 0 : alignment − poffset)  [(p + adjust + offset) mod alignment = 0 by (x + (A − x mod A)) mod A = 0]", key="C03.R2:adjust")
     g = prog.fn("_mi_os_alloc_aligned_at_offset")
-    ex = [dd for _, dd in rl.local_decl(g, lambda dd: "init" in dd and rl.canon(g, dd["init"]).replace(" ", "") == "(_mi_align_up($2,$1)-$2)")]
-    ctx.check(R, len(ex) == 1, g.where(), "OS level: extra = align_up(offset, alignment) − offset (so start + extra + offset is aligned)", key="C03.R2:os_extra")
-    if ex:
-        ok = any(rl.canon(g, dd["init"]).replace(" ", "") in ("($0+extra)", "(extra+$0)") for _, dd in rl.local_decl(g, lambda dd: "init" in dd))
-        ctx.check(R, ok, g.where(), "OS level: the over-allocation is size + extra", key="C03.R2:os_oversize")
+    # what is requested from the OS and where the block is placed, with temporaries expanded (it does not matter whether
+    # `extra` / `oversize` are named locals or written out at the use)
+    EXTRA = "(_mi_align_up($2,$1)-$2)"
+    exp = lambda x: rl.canon(g, x, expand=True).replace(" ", "")
+    reqs = [exp(rl.arg(g, c, 0)) for c in g.calls("_mi_os_alloc_aligned")]
+    ctx.check(R, any(EXTRA in r for r in reqs), g.where(), "OS level: extra = align_up(offset, alignment) − offset (so start + extra + offset is aligned)", key="C03.R2:os_extra")
+    ctx.check(R, any(r in ("($0+%s)" % EXTRA, "(%s+$0)" % EXTRA) for r in reqs), g.where(), "OS level: the over-allocation is size + extra: %s" % reqs, key="C03.R2:os_oversize")
     ctx.floor(R, 5)
 
 
@@ -241,15 +242,13 @@ def r5(ctx, prog):
             def small(e, pol):
                 if not isinstance(e, int):
                     return False
-                c = rl.norm_cmp(f, e, pol)
-                return c is not None and rl.var_of(f, c[1]) == al and c[0] == "<=" and f.cv(c[2]) is not None and f.cv(c[2]) <= maxal
+                return rl.establishes(f, e, pol, "<=", rl.is_local(f, al), rl.is_const(f, lambda v: v <= maxal))
             w = cfg.guarded(cfg.pt(r), small)
             ctx.check(R, w is None, f.where(r), "`return true` without looking at the size only for alignment <= MI_MAX_ALIGN_SIZE", key="C03.R5:small", witness=w)
             def fits(e, pol):
                 if not isinstance(e, int):
                     return False
-                c = rl.norm_cmp(f, e, pol)
-                return c is not None and rl.var_of(f, c[1]) == al and c[0] == "<=" and rl.var_of(f, c[2]) == sz
+                return rl.establishes(f, e, pol, "<=", rl.is_local(f, al), rl.is_local(f, sz))
             w = cfg.guarded(cfg.pt(r), fits)
             ctx.check(R, w is None, f.where(r), "and only when alignment <= size (a smaller request may land in a smaller, less aligned size class)", key="C03.R5:fits", witness=w)
     # page start: exhaustive residue analysis
@@ -262,11 +261,23 @@ def r5(ctx, prog):
         if n["k"] == "DeclStmt":
             for dd in n["decls"]:
                 locs[dd["n"]] = dd
-    need = ("psize", "pstart", "start_offset")
-    if not all(k in locs for k in need):
-        # identify by role instead of name
-        cand = [dd for dd in locs.values() if "init" in dd and dd["t"] == "size_t" and g.cv(dd["init"]) == 0]
-        raise AnalysisBroken("C03.R5: locals of _mi_segment_page_start_from_slice not found")
+    # the locals by role: the function returns <page start pointer> + <start offset>; the page size is the local computed
+    # from slice_count
+    rets_g = [r for r in g.all(kind="ReturnStmt") if "val" in g.nodes[r]]
+    rj = g.strip(g.nodes[rets_g[0]]["val"]) if len(rets_g) == 1 else None
+    roles = {}
+    if rj is not None and g.nodes[rj]["k"] == "BinaryOperator" and g.nodes[rj]["op"] == "+":
+        for side in g.nodes[rj]["c"]:
+            d_ = rl.var_of(g, side)
+            dd_ = next((dd for dd in locs.values() if dd["d"] == d_), None)
+            if dd_ is not None:
+                roles["pstart" if "*" in dd_["t"] else "start_offset"] = dd_
+    ps = [dd for dd in locs.values() if "init" in dd and g.mentions_field(dd["init"], "slice_count")]
+    if len(ps) == 1:
+        roles["psize"] = ps[0]
+    if not all(k in roles for k in ("psize", "pstart", "start_offset")):
+        raise AnalysisBroken("C03.R5: locals of _mi_segment_page_start_from_slice not found (page size / page start / start offset)")
+    locs = roles
     body = g.kids(g.d["body"])
     so_decl = next(i for i in body if g.nodes[i]["k"] == "DeclStmt" and any(dd["d"] == locs["start_offset"]["d"] for dd in g.nodes[i]["decls"]))
     rest = body[body.index(so_decl):]
